@@ -143,7 +143,8 @@ Fixpoint assignments (names : list string) : list (list (string * rclass)) :=
 
 Definition with_oracle (i : input) (a : list (string * rclass)) (m : bool) : input :=
   {| i_args := i_args i; i_pkgdirs := i_pkgdirs i; i_inmodule := i_inmodule i; i_files := i_files i;
-     i_extra := i_extra i; i_dests := i_dests i; i_render := (a ++ i_render i)%list; i_merge_ok := m |}.
+     i_extra := i_extra i; i_dests := i_dests i; i_render := (a ++ i_render i)%list; i_merge_ok := m;
+     i_foreign := i_foreign i |}.
 
 Definition agrees (i : input) (uncertain : list string) (o : obs) : bool :=
   match uncertain with
